@@ -98,6 +98,7 @@ META["C02"] = dict(
     "container: (container kind, element type, per-element accept vector, channel); union: (member set, channel, value) over "
     "all (thorough) / 6 (quick) permutations. Distinct = hash of that tuple; non-trivial = the parser reached a decision.",
     gates={
+        "mon.a.castable_respelling": g(500, 5000), "st.union.sibling_containers": g(200, 2000),
         "mon.a.boundary_conformance": g(3000, 30000),
         "mon.a.internal_contract": g(10000, 100000),
         "mon.b.conforming_native": g(1000, 10000),
@@ -182,6 +183,7 @@ META["C10"] = dict(
         "st.result_kind.reg": g(50, 500), "st.result_kind.dataclass": g(30, 300), "st.result_kind.class": g(10, 100),
         "st.result_kind.dict": g(50, 500), "st.result_kind.union": g(50, 500),
         "st.prefix_named_class_options_with_defaults": g(40, 400),
+        "mon.sparse_class_spec_after_failed_parse": g(30, 300),
     },
     assumptions=["provenance keys are not configuration", "SecretStr is masked in dumps by design (C20) and excluded"],
 )
